@@ -143,4 +143,5 @@ package absnfs
 //@ ensures [cred-body] isnil(result1) ==> forall(k, 0, len(result0.Credential.Body), result0.Credential.Body[k] == rdata[valof(r)][old(rpos[valof(r)]) + 32 + k], result0.Credential.Body[k])
 //@ ensures [verf] isnil(result1) ==> result0.Verifier.Flavor == be32(rdata[valof(r)], old(rpos[valof(r)]) + 32 + roundup4(len(result0.Credential.Body))) && len(result0.Verifier.Body) == be32(rdata[valof(r)], old(rpos[valof(r)]) + 36 + roundup4(len(result0.Credential.Body))) && len(result0.Verifier.Body) <= 400
 //@ ensures [consumed] isnil(result1) ==> rpos[valof(r)] == old(rpos[valof(r)]) + 40 + roundup4(len(result0.Credential.Body)) + roundup4(len(result0.Verifier.Body))
+//@ ensures [within-stream] isnil(result1) ==> rpos[valof(r)] <= rlen[valof(r)]
 //@ ensures [frame] forall(o, mathint, o != valof(r) ==> rpos[o] == old(rpos[o])) && rpos[valof(r)] >= old(rpos[valof(r)])
